@@ -19,6 +19,8 @@ instance : Trig Float32 where
   atan2 := Float32.atan2
   pi := Float32.ofBits 0x40490FDB
 
+namespace CurveCmd
+
 /-- fuel handed to every fuel-taking loop by the driver (`fuel-exhausted` is reported, never a default). -/
 def curveFuel : Nat := 2000000
 
@@ -114,6 +116,8 @@ def seqOp (mode : GameMode) (pool : List (List (PathControlPoint Float32))) (st 
     pure { st with sp := st.sp.clearCurve, out := "-" :: st.out }
   else throw .panic
 
+end CurveCmd
+open CurveCmd in
 def dispatchCurve (toks : List String) : Option String :=
   match toks with
   | cmd :: mode :: len :: rest =>
